@@ -130,6 +130,13 @@ func init() {
 		"registry-snapshots", "fd-number-reused")
 	props["C14"].variantsQ = []string{"default", "gc_opt"}
 	// C05: a third of the workers run the race-detector flavour (sim/vsched/race_on.go)
+	props["C05"].components = map[string][]string{
+		"real": append(append([]string{}, simComponents["real"]...), "+race variants: the Go race detector (runtime/race, ThreadSanitizer) as shipped with the toolchain, observing the real accesses, atomics, locks, channels and goroutine creation of the gnet packages"),
+		"stub": append(append([]string{}, simComponents["stub"]...), "+race variants: two files of package runtime replaced through a build overlay (race_amd64.s: a goroutine with a non-zero ignore depth reports no memory access; race.go: RaceIgnoreSwap), so that harness and scheduler are invisible to the detector", "+race variants: sync.Pool stand-in gives each pooled object its own release/acquire pair; application-side hand-overs of Engine and Conn modelled by the harness as one release/acquire each"),
+	}
+	props["C05"].assumptions = append(append([]string{}, simAssumptions...),
+		"+race variants: a report counts only when both accesses are attributed (innermost frame outside runtime and standard library) to gnet packages; a pair of accesses is reported when unordered, the racy interleaving itself need not occur; code that no run reaches is not judged",
+		"+race variants: Engine.Register under the default Round-Robin policy is documented as racy by gnet; plans that call it (or dial through one Client from several goroutines) use least-connections there")
 	props["C05"].variantsQ = []string{"default", "poll_opt", "default+race"}
 	props["C05"].variantsT = []string{"default", "default+small", "poll_opt", "gc_opt", "default+race", "default+small+race", "poll_opt+race"}
 	// build flavour +small (3 requests per loop round, urgent-queue threshold 8, 4 iovecs per
